@@ -78,7 +78,32 @@
    once, Get2 callers).  c18_ants_task_protocol_race_free / c18_taskx_task_protocol_race_free:
    no happens-before race for any number of attempts, late handlers, Get2 callers, any schedule.
    c18_ants_err_peek_refuted / c18_taskx_do_twice_refuted: Task.Err() called before Get2 returned,
-   and a second Do while Get2 callers read, DO race (usages outside the protocol). *)
+   and a second Do while Get2 callers read, DO race (usages outside the protocol).
+
+   Flag / AddIf64, Mutex, taskx.Queue (the remaining components the property names; end of this file).
+   The existing step functions are labelled, not re-modelled: at_step (models/Atomics.v, stepped
+   against flag.go / atomic.go by C17) in models/RaceAtomics.v, mx_step (models/MutexWord.v: Lock /
+   Unlock re-modelled from sync.Mutex + loom's TryLock, whose accesses C17 steps against mutex.go)
+   in models/RaceMutex.v, tq_gstep (models/TaskQueue.v, replayed against queue.go /
+   task_callback.go by C09) in models/RaceTaskQueue.v; c18_atomics_run_projects,
+   c18_mutex_run_projects, c18_taskq_trace_projects: the labelled run IS the run of the model.
+   Flag / AddIf64 and the Mutex state word are accessed ONLY through sync/atomic: the theorems
+   c18_atomics_model_all_atomic / c18_mutex_word_all_atomic say "no plain access at all" (every
+   event of every run is a synchronisation event), c18_atomics_model_race_free is the corollary;
+   c18_mutex_model_race_free is about what the mutex is for: client data read / written only while
+   the model says the thread HOLDS the mutex (acquired by Lock's fast path, lockSlow's CAS, the
+   starvation hand-off, TryLock's first or second CAS) never races, with Count / IsLocked observers
+   running at any time.  c18_taskq_model_race_free: producers (any number; allocation of the
+   taskCallback = plain writes before the send), parked senders admitted by a receive or woken by
+   close, the single consumer (receive = acquire on the task's message; Do's plain writes of result,
+   err, isHandled before wg.Done = release), and any number of Get2 waiters (acquire at the return of
+   wg.Wait, then plain reads; also when released inside the Done step) never race, for every
+   capacity, program and schedule.  Refutations in the same labelled models: c18_atomics_plain_refuted
+   (AddFlag as plain read-modify-write), c18_mutex_trylock_plain_refuted, c18_taskq_ishandled_early_refuted
+   (seeded C09-ishandled-early-plus-get-fastpath), c18_taskq_done_release_needed (= wg.Done before the
+   result store), c18_taskq_receive_needed.  NOT covered by a model-level theorem: the ants Pool
+   (models/Ants.v is a timed event machine): protocol machine for its task result above, detector,
+   access table. *)
 From Coq Require Import String.
 From Got Require Import Base Race RaceProofs RaceInst RaceHB RaceHBProofs RaceMonLemmas.
 From Got Require Import Queue QueueProofs RaceQueue RaceQueueProofs.
@@ -86,6 +111,9 @@ From Got Require Import WaitClose RaceWaitClose RaceWaitCloseProofs.
 From Got Require Import Wheel RaceWheel RaceWheelProofs.
 From Got Require Import Cache CacheSteps RaceCache RaceCacheProofs.
 From Got Require Import RaceTasks RaceTasksProofs.
+From Got Require Import Atomics RaceAtomics RaceAtomicsProofs.
+From Got Require Import MutexWord RaceMutex RaceMutexProofs.
+From Got Require Import TaskQueue RaceTaskQueue RaceTaskQueueStruct RaceTaskQueueProofs.
 Local Open Scope nat_scope.
 
 (* ---- the monitor decides the relational happens-before notion of a data race ---- *)
@@ -603,4 +631,316 @@ Proof.
   - apply (rm_hb_chain _ 0 2 3 8 0 1 (RWrite 1) (RRel 0) (RAcq 0) (RWrite 1) 0); try reflexivity; lia.
   - apply (rm_conflict_intro _ 13 20 1 4 (RWrite 1) (RRead 1) 1); try reflexivity; [discriminate|left; reflexivity].
   - apply (rm_hb_chain _ 13 17 19 20 1 4 (RWrite 1) (RRel 1) (RAcq 1) (RRead 1) 1); try reflexivity; lia.
+Qed.
+
+(* ================================================================== loom.Flag / loom.AddIf64: the labelled step model *)
+
+(* ---- every run of at_step (models/Atomics.v, the machine C17 steps against flag.go / atomic.go)
+   labelled by models/RaceAtomics.v: atomic.LoadInt64 = acquire, successful CompareAndSwapInt64 =
+   acquire-release, failed CAS = acquire, all on ONE sync object (the word).
+   ALL accesses of this component are atomic.  So the content of the theorem is "no plain access at
+   all": c18_atomics_model_all_atomic says every memory event of every run (any initial word, any
+   number of threads, any programs over AddFlag / RemoveFlag / HasFlag / AddIf64 with any predicate,
+   any schedule) is a synchronisation event, and c18_atomics_model_race_free is its corollary (a
+   trace without plain accesses has no conflicting pair).  That the labels are the right ones is tied
+   to the code by: c18_atomics_labels_match_events (the label of a step is a function of the
+   at_event of that step, which C17 compares with the running code at every step of every schedule),
+   c18_atomics_labels_match_sites (yield sites 14..17), c18_atomics_rows_in_table (access-table
+   rows regenerated from flag.go / atomic.go on every run: a plain access instead of a sync/atomic
+   call changes the row), and the -race stress.  c18_atomics_run_projects: the labelled run is the run
+   of the model (same final state, same at_event trace). *)
+Theorem c18_atomics_model_race_free :
+  forall (w : Z) (progs : list (list at_op)) (sched : list nat),
+    ~ hb_race (ra_trace (at_init w progs) sched).
+Proof. exact ra_race_free_init. Qed.
+Print Assumptions c18_atomics_model_race_free.
+
+Theorem c18_atomics_model_all_atomic :
+  forall (w : Z) (progs : list (list at_op)) (sched : list nat),
+    Forall (fun p => rm_sync (snd p)) (ra_trace (at_init w progs) sched).
+Proof. exact ra_all_atomic_init. Qed.
+Print Assumptions c18_atomics_model_all_atomic.
+
+Theorem c18_atomics_run_projects :
+  forall (s : at_state) (sched : list nat),
+    fst (ra_lrun s sched) = at_final s sched /\
+    map fst (snd (ra_lrun s sched)) = at_trace s sched /\
+    ra_flatten (snd (ra_lrun s sched)) = ra_trace s sched.
+Proof. exact ra_lrun_projects'. Qed.
+Print Assumptions c18_atomics_run_projects.
+
+Theorem c18_atomics_labels_match_events :
+  forall (s : at_state) (i : nat),
+    match snd (at_step s i) with
+    | AEInv _ | AENone => ra_events false s i = []
+    | AELoad | AECasFail | AEHas _ _ | AEIfFalse _ => ra_events false s i = [RAcq ra_word]
+    | AEFlagEff _ _ | AEIfAdd _ _ => ra_events false s i = [RAcqRel ra_word]
+    end.
+Proof. exact ra_labels_match_events. Qed.
+Print Assumptions c18_atomics_labels_match_events.
+
+(* a step that changes the word publishes: it is labelled with a release on the word *)
+Theorem c18_atomics_word_change_is_release :
+  forall (s : at_state) (i : nat),
+    at_word (fst (at_step s i)) <> at_word s -> ra_events false s i = [RAcqRel ra_word].
+Proof. exact ra_word_change_is_release. Qed.
+Print Assumptions c18_atomics_word_change_is_release.
+
+Theorem c18_atomics_labels_match_sites :
+  forall (w : Z) (pc : at_pc) (todo : list at_op),
+    match at_site_pc pc with
+    | 14 | 16 => ra_step_pc false w pc todo = [RAcq ra_word]
+    | 15 | 17 => exists ok, ra_step_pc false w pc todo = ra_cas false ok
+    | _ => ra_step_pc false w pc todo = [] \/ ra_step_pc false w pc todo = [RAcq ra_word]
+    end.
+Proof. exact ra_sites. Qed.
+Print Assumptions c18_atomics_labels_match_sites.
+
+Theorem c18_atomics_rows_in_table : ra_rows_in_table = true.
+Proof. exact ra_rows_ok. Qed.
+Print Assumptions c18_atomics_rows_in_table.
+
+(* the converse: AddFlag / RemoveFlag written as a plain read-modify-write (last := *addr; *addr =
+   last | flag) DOES race in the same analysis: two threads, both past their plain read when the
+   first plain write happens *)
+Theorem c18_atomics_plain_refuted :
+  hb_race (ra_trace_gen true (at_init 0%Z [[AtAdd 1%Z]; [AtAdd 2%Z]]) [0; 1; 0; 1; 0; 1]).
+Proof. exact ra_plain_refuted. Qed.
+Print Assumptions c18_atomics_plain_refuted.
+
+(* non-vacuity: AddFlag(1) by thread 0, RemoveFlag(4) by thread 1 whose first CAS fails, HasFlag(1) by
+   thread 2.  The trace has 7 events, none a plain access (so there is no conflicting pair to order);
+   the synchronisation it records is real: thread 0's successful CAS (event 2, a release) is ordered
+   before thread 1's failed CAS (3), thread 1's successful CAS (5) and thread 2's load (6) *)
+Example c18_atomics_model_nonvacuous :
+  let s := at_init 0%Z [[AtAdd 1%Z]; [AtRemove 4%Z]; [AtHas 1%Z]] in
+  let sched := [0;1;0;1;0;1;1;1;2] in
+  let tr := ra_trace s sched in
+  at_word (at_final s sched) = 1%Z /\
+  map snd (at_trace s sched) = [AEInv (AtAdd 1%Z); AEInv (AtRemove 4%Z); AELoad; AELoad; AEFlagEff true 1%Z;
+                                AECasFail; AELoad; AEFlagEff false 4%Z; AEHas 1%Z true] /\
+  tr = [(0, RAcq 0); (1, RAcq 0); (0, RAcqRel 0); (1, RAcq 0); (1, RAcq 0); (1, RAcqRel 0); (2, RAcq 0)] /\
+  hb_hb tr 2 3 /\ hb_hb tr 2 5 /\ hb_hb tr 5 6.
+Proof.
+  cbv zeta. remember (ra_trace _ _) as tr eqn:E. vm_compute in E. subst tr.
+  split; [vm_compute; reflexivity|]. split; [vm_compute; reflexivity|]. split; [reflexivity|].
+  split; [|split].
+  - apply (rm_hb_sw _ 2 3 0 1 (RAcqRel 0) (RAcq 0) 0); try reflexivity; lia.
+  - apply (rm_hb_sw _ 2 5 0 1 (RAcqRel 0) (RAcqRel 0) 0); try reflexivity; lia.
+  - apply (rm_hb_sw _ 5 6 1 2 (RAcqRel 0) (RAcq 0) 0); try reflexivity; lia.
+Qed.
+
+(* ================================================================== loom.Mutex: the labelled step model *)
+
+(* ---- every run of mx_step (models/MutexWord.v part 2: Lock / lockSlow / Unlock / unlockSlow of
+   sync.Mutex re-modelled from the Go 1.23 source + loom's TryLock, whose three accesses C17 steps
+   against loom/mutex.go) labelled by models/RaceMutex.v, with observers (RmxObs = Count / IsLocked /
+   IsWoken / IsStarving: one atomic load, at any time) and client accesses (RmxAcc i w x: thread i
+   reads / writes location x, executed only while the model says thread i holds the mutex).
+   (1) The state word: Lock, Unlock, TryLock, Count, IsLocked touch it only through sync/atomic
+   (c18_mutex_word_all_atomic: without client accesses every event of every run is a synchronisation
+   event - "no plain access at all"; the plain loads inside package sync are not labelled, see
+   RaceMutex.v).  (2) c18_mutex_model_race_free: data accessed only while holding a loom.Mutex -
+   acquired by Lock's fast path, lockSlow's CAS, the starvation hand-off, or TryLock's first or second
+   CAS - never races, for any number of threads, any programs, any spin / starvation oracles, any
+   schedule, with observers running: TryLock's CAS really acquires what Unlock's AddInt32 released.
+   It rests on mutual exclusion (C17: c17_mutex_exclusion, the invariant mx_inv). *)
+Theorem c18_mutex_model_race_free :
+  forall (progs : list (list mx_op)) (sched : list rmx_item),
+    ~ hb_race (rmx_trace (mx_init progs) sched).
+Proof. exact rmx_race_free. Qed.
+Print Assumptions c18_mutex_model_race_free.
+
+Theorem c18_mutex_model_monitor :
+  forall (progs : list (list mx_op)) (sched : list rmx_item),
+    rc_raced (rc_run (length progs) (rmx_trace (mx_init progs) sched)) = false
+    /\ hb_wf (length progs) (rmx_trace (mx_init progs) sched).
+Proof. exact rmx_monitor_spec. Qed.
+Print Assumptions c18_mutex_model_monitor.
+
+Theorem c18_mutex_word_all_atomic :
+  forall (progs : list (list mx_op)) (sched : list rmx_item),
+    Forall (fun it => match it with RmxAcc _ _ _ => False | _ => True end) sched ->
+    Forall (fun p => rm_sync (snd p)) (rmx_trace (mx_init progs) sched).
+Proof. exact rmx_word_all_atomic_init. Qed.
+Print Assumptions c18_mutex_word_all_atomic.
+
+(* the labelled run is the run of the model: its states are those of mx_step on the RmxRun items *)
+Theorem c18_mutex_run_projects :
+  forall (s : mx_state) (sched : list rmx_item), rmx_final s sched = mx_final s (rmx_base sched).
+Proof. exact rmx_projects'. Qed.
+Print Assumptions c18_mutex_run_projects.
+
+Theorem c18_mutex_labels_match_sites :
+  forall (r : mx_w) (th : mx_thread),
+    match xpc th with
+    | XT1 => rmx_label false r th = [rmx_cas (mx_is_zero r)]
+    | XT2 => rmx_label false r th = [RAcq rmx_word]
+    | XT3 old => rmx_label false r th = [rmx_cas (mx_w_eqb r old)]
+    | _ => True
+    end.
+Proof. exact rmx_sites. Qed.
+Print Assumptions c18_mutex_labels_match_sites.
+
+(* the label of a step is a function of the mx_event of that step: every acquisition (Lock fast path,
+   lockSlow CAS, hand-off, TryLock CAS1 / CAS2) and every Unlock is an acquire-release on the word, a
+   refused TryLock only an acquire; invocations, semaphore steps and returns emit nothing *)
+Theorem c18_mutex_labels_match_events :
+  forall (r : mx_w) (t : nat) (th : mx_thread),
+    match snd (mx_step_th r t th) with
+    | XEAcq _ | XEUnlocked => rmx_label false r th = [RAcqRel rmx_word]
+    | XETryFail => rmx_label false r th = [RAcq rmx_word]
+    | XEInv | XESkip | XEBlocked | XERet | XENone => rmx_label false r th = []
+    | _ => True
+    end.
+Proof. exact rmx_labels_match_events. Qed.
+Print Assumptions c18_mutex_labels_match_events.
+
+Theorem c18_mutex_rows_in_table : rmx_rows_in_table = true.
+Proof. exact rmx_rows_ok. Qed.
+Print Assumptions c18_mutex_rows_in_table.
+
+(* TryLock with plain accesses of the word instead of sync/atomic calls races *)
+Theorem c18_mutex_trylock_plain_refuted :
+  hb_race (rmx_trace_gen true (mx_init [[XTryLock]; [XTryLock]]) [RmxRun 0; RmxRun 1; RmxRun 0; RmxRun 1]).
+Proof. exact rmx_trylock_plain_refuted. Qed.
+Print Assumptions c18_mutex_trylock_plain_refuted.
+
+(* non-vacuity: thread 0 Lock, write x, Unlock; thread 1 TryLock (fails: CAS1 and the load see the
+   locked word), its access is refused, TryLock again (CAS1 succeeds), read x, write x, Unlock;
+   thread 2 observes twice (Count / IsLocked), then Lock and write x.
+   1 = thread 0's write, read by thread 1 at 7 (Unlock's AddInt32 5 -> TryLock's CAS 6);
+   8 = thread 1's write, against thread 2's write at 12 (Unlock 10 -> Lock 11);
+   1 against 12 directly (5 -> 11) *)
+Example c18_mutex_model_nonvacuous :
+  let s := mx_init [[XLock 0 0; XUnlock]; [XTryLock; XTryLock; XUnlock]; [XLock 0 0]] in
+  let sched := [RmxRun 0; RmxRun 0; RmxAcc 0 true 7; RmxRun 1; RmxRun 1; RmxRun 1; RmxAcc 1 false 7; RmxObs 2;
+                RmxRun 0; RmxRun 0; RmxRun 1; RmxRun 1; RmxAcc 1 false 7; RmxAcc 1 true 7; RmxObs 2;
+                RmxRun 1; RmxRun 1; RmxRun 2; RmxRun 2; RmxAcc 2 true 7] in
+  let tr := rmx_trace s sched in
+  map snd (mx_trace s (rmx_base sched)) =
+    [XEInv; XEAcq 0; XEInv; XEInt; XETryFail; XEInv; XEUnlocked; XEInv; XEAcq 3; XEInv; XEUnlocked; XEInv; XEAcq 0] /\
+  length tr = 13 /\
+  hb_conflict tr 1 7 /\ hb_hb tr 1 7 /\
+  hb_conflict tr 8 12 /\ hb_hb tr 8 12 /\
+  hb_conflict tr 1 12 /\ hb_hb tr 1 12.
+Proof.
+  cbv zeta. remember (rmx_trace _ _) as tr eqn:E. vm_compute in E. subst tr.
+  split; [vm_compute; reflexivity|]. split; [reflexivity|]. repeat split.
+  - apply (rm_conflict_intro _ 1 7 0 1 (RWrite 8) (RRead 8) 8); try reflexivity; [discriminate|left; reflexivity].
+  - apply (rm_hb_chain _ 1 5 6 7 0 1 (RWrite 8) (RAcqRel 0) (RAcqRel 0) (RRead 8) 0); try reflexivity; lia.
+  - apply (rm_conflict_intro _ 8 12 1 2 (RWrite 8) (RWrite 8) 8); try reflexivity; [discriminate|left; reflexivity].
+  - apply (rm_hb_chain _ 8 10 11 12 1 2 (RWrite 8) (RAcqRel 0) (RAcqRel 0) (RWrite 8) 0); try reflexivity; lia.
+  - apply (rm_conflict_intro _ 1 12 0 2 (RWrite 8) (RWrite 8) 8); try reflexivity; [discriminate|left; reflexivity].
+  - apply (rm_hb_chain _ 1 5 11 12 0 2 (RWrite 8) (RAcqRel 0) (RAcqRel 0) (RWrite 8) 0); try reflexivity; lia.
+Qed.
+
+(* ================================================================== taskx.Queue: the labelled step model *)
+
+(* ---- every run of tq_gstep (models/TaskQueue.v: the machine C09 replays against taskx/queue.go and
+   task_callback.go - producers calling SendCallback / SendTask on a channel of any capacity, ONE
+   consumer that receives and runs Do once per task, close of the close channel at any time, Get2
+   waiters started at any time on any handle) labelled by models/RaceTaskQueue.v.
+   Threads: producer i = i, the consumer = length progs, the closer = length progs + 1, waiter w =
+   length progs + 2 + w; no go-statement edges.  Per task: plain locations result / err / isHandled,
+   sync objects = the channel message carrying the task and the task's WaitGroup; closeChan = object 0.
+   Events: the allocation &taskCallback{..} = plain writes of the three fields by the producer, before
+   the send (release on the message; for a parked sender when a receive admits it); the consumer's
+   receive = acquire on that message; Do = plain writes of result and err (TqStore), then plain read
+   and write of isHandled, wg.Done = release, plain read of err (TqDone); Get2 = wg.Wait returns =
+   acquire, then plain reads of result and err (at the call, or in the step of the Done that releases
+   the parked waiter); close(closeChan) = release, a sender leaving through the close branch = acquire.
+   wg.Add(1) is given no event (it has no synchronisation meaning in the Go memory model).
+   c18_taskq_model_race_free: no happens-before race, for every capacity, every number of producers,
+   all programs (nil handlers / nil tasks / user tasks included), every schedule with any number of
+   Get2 waiters.  c18_taskq_trace_projects: the labelled trace is the model's own event trace
+   (tq_gtrace, what C09 compares with the code) mapped through the labelling. *)
+Theorem c18_taskq_model_race_free :
+  forall (cap : nat) (progs : list (list tq_op)) (gs : list tq_gact),
+    ~ hb_race (rtq_trace cap progs gs).
+Proof. exact rtq_race_free. Qed.
+Print Assumptions c18_taskq_model_race_free.
+
+Theorem c18_taskq_model_conflicts_ordered :
+  forall (cap : nat) (progs : list (list tq_op)) (gs : list tq_gact) (i j : nat),
+    i < j -> j < length (rtq_trace cap progs gs) ->
+    hb_conflict (rtq_trace cap progs gs) i j -> hb_hb (rtq_trace cap progs gs) i j.
+Proof. exact rtq_conflicts_ordered. Qed.
+Print Assumptions c18_taskq_model_conflicts_ordered.
+
+Theorem c18_taskq_model_monitor :
+  forall (cap : nat) (progs : list (list tq_op)) (gs : list tq_gact),
+    rc_raced (rc_run (rtq_nthreads progs gs) (rtq_trace cap progs gs)) = false
+    /\ hb_wf (rtq_nthreads progs gs) (rtq_trace cap progs gs).
+Proof. exact rtq_monitor_spec. Qed.
+Print Assumptions c18_taskq_model_monitor.
+
+Theorem c18_taskq_trace_projects :
+  forall (cap : nat) (progs : list (list tq_op)) (gs : list tq_gact),
+    rtq_trace cap progs gs =
+    flat_map (fun ae => rtq_events false (length progs) (fst ae) (snd ae))
+             (combine gs (tq_gtrace (tq_ginit cap progs) gs)).
+Proof. exact rtq_trace_projects_init. Qed.
+Print Assumptions c18_taskq_trace_projects.
+
+Theorem c18_taskq_rows_in_table : rtq_rows_in_table = true.
+Proof. exact rtq_rows_ok. Qed.
+Print Assumptions c18_taskq_rows_in_table.
+
+(* the seeded shape "isHandled set before the handler runs + Get2 fast path reading isHandled"
+   (seeded/C09-ishandled-early-plus-get-fastpath) races in the same analysis - even when the producer
+   hands the task to the Get2 caller with a synchronising hand-off: the consumer's plain write of
+   isHandled (and of result / err) is unordered with the caller's plain read *)
+Theorem c18_taskq_ishandled_early_refuted :
+  hb_race (rtq_trace_early 1 [[TqCallback (Some (5%Z, 0%Z))]]
+             [TqGBase (TqProd 0 false); TqGBase (TqRecv 0); TqGBase TqStore; TqGGet (TqHTask (0, 0))]).
+Proof. exact rtq_early_refuted. Qed.
+Print Assumptions c18_taskq_ishandled_early_refuted.
+
+(* deleting wg.Done's release (what "wg.Done() before the result store" amounts to) / the receive's
+   acquire from a race-free run makes it racy *)
+Theorem c18_taskq_done_release_needed :
+  let tr := rtq_trace 1 rtq_ex_progs rtq_ex_sched in
+  nth_error tr 13 = Some (2, RRel (rtq_wg (0, 0))) /\ ~ hb_race tr /\ hb_race (firstn 13 tr ++ skipn 14 tr).
+Proof. exact rtq_done_release_needed. Qed.
+Print Assumptions c18_taskq_done_release_needed.
+
+Theorem c18_taskq_receive_needed :
+  let tr := rtq_trace 1 rtq_ex_progs rtq_ex_sched in
+  nth_error tr 7 = Some (2, RAcq (rtq_msg (0, 0))) /\ ~ hb_race tr /\ hb_race (firstn 7 tr ++ skipn 8 tr).
+Proof. exact rtq_receive_needed. Qed.
+Print Assumptions c18_taskq_receive_needed.
+
+(* non-vacuity: capacity 1, producers 0 and 1 (threads 0, 1), consumer = thread 2, closer = 3, waiters
+   = 4, 5, 6.  Producer 0 sends callback task (0,0); waiter 0 parks on it; producer 1's callback task
+   (1,0) and producer 0's user task park (channel full); the consumer receives (0,0) admitting (1,0),
+   stores, Done releases waiter 0; waiter 1 returns at once; the consumer receives (1,0) admitting the
+   user task, stores; close; Done; waiter 2 reads (1,0); producer 1's last send leaves through close.
+   0  = producer 0's allocation write of result, overwritten by the consumer at 9 (send 3 -> receive 7);
+   9  = the consumer's write of result, read by the RELEASED waiter at 16 (wg.Done 13 -> wg.Wait 15);
+   10 = the consumer's write of err, read by the waiter that came later at 20 (13 -> 18);
+   4  = the PARKED sender's allocation write, overwritten by the consumer at 23 (its send completes at
+        the admitting receive: 8 -> the consumer's receive 21);
+   24 = the consumer's write of err of task (1,0), read by waiter 2 at 32 (28 -> 30) *)
+Example c18_taskq_model_nonvacuous :
+  let tr := rtq_trace 1 rtq_ex_progs rtq_ex_sched in
+  length tr = 37 /\
+  hb_conflict tr 0 9 /\ hb_hb tr 0 9 /\
+  hb_conflict tr 9 16 /\ hb_hb tr 9 16 /\
+  hb_conflict tr 10 20 /\ hb_hb tr 10 20 /\
+  hb_conflict tr 4 23 /\ hb_hb tr 4 23 /\
+  hb_conflict tr 24 32 /\ hb_hb tr 24 32.
+Proof.
+  cbv zeta. remember (rtq_trace _ _ _) as tr eqn:E. vm_compute in E. subst tr.
+  split; [reflexivity|]. repeat split.
+  - apply (rm_conflict_intro _ 0 9 0 2 (RWrite 0) (RWrite 0) 0); try reflexivity; [discriminate|left; reflexivity].
+  - apply (rm_hb_chain _ 0 3 7 9 0 2 (RWrite 0) (RRel 1) (RAcq 1) (RWrite 0) 1); try reflexivity; lia.
+  - apply (rm_conflict_intro _ 9 16 2 4 (RWrite 0) (RRead 0) 0); try reflexivity; [discriminate|left; reflexivity].
+  - apply (rm_hb_chain _ 9 13 15 16 2 4 (RWrite 0) (RRel 2) (RAcq 2) (RRead 0) 2); try reflexivity; lia.
+  - apply (rm_conflict_intro _ 10 20 2 5 (RWrite 1) (RRead 1) 1); try reflexivity; [discriminate|left; reflexivity].
+  - apply (rm_hb_chain _ 10 13 18 20 2 5 (RWrite 1) (RRel 2) (RAcq 2) (RRead 1) 2); try reflexivity; lia.
+  - apply (rm_conflict_intro _ 4 23 1 2 (RWrite 6) (RWrite 6) 6); try reflexivity; [discriminate|left; reflexivity].
+  - apply (rm_hb_chain _ 4 8 21 23 1 2 (RWrite 6) (RRel 7) (RAcq 7) (RWrite 6) 7); try reflexivity; lia.
+  - apply (rm_conflict_intro _ 24 32 2 6 (RWrite 7) (RRead 7) 7); try reflexivity; [discriminate|left; reflexivity].
+  - apply (rm_hb_chain _ 24 28 30 32 2 6 (RWrite 7) (RRel 8) (RAcq 8) (RRead 7) 8); try reflexivity; lia.
 Qed.
